@@ -184,6 +184,20 @@ def main():
                 thm_status[t] = ax
                 if extra: proof_broken.append("theorem %s: axioms %s" % (t, extra))
                 else: discharged += 1
+        if ok and tier == "thorough":
+            # independent re-check of the compiled proof modules (and the lemma modules they import from this library) by leanchecker
+            lem = sorted("MpirProofs.Lemmas." + os.path.basename(f)[:-5] for f in __import__("glob").glob(os.path.join(vlib.LEAN, "MpirProofs", "Lemmas", "*.lean")))
+            imported = set()
+            for m in modules:
+                try: txt = open(os.path.join(vlib.LEAN, m.replace(".", "/") + ".lean")).read()
+                except Exception: txt = ""
+                imported |= set(re.findall(r"^import (MpirProofs\.Lemmas\.\w+)", txt, re.M))
+            rechecked = []; t0 = time.time()
+            for m in list(modules) + sorted(imported & set(lem)):
+                rc, out = vlib.lake(["env", "leanchecker", m], timeout=1800)
+                rechecked.append(m)
+                if rc != 0: proof_broken.append("leanchecker rejects module %s: %s" % (m, out[-800:]))
+            cov["leanchecker"] = {"modules": rechecked, "wall_s": round(time.time() - t0, 1)}
         srcs = [os.path.join(vlib.LEAN, m.replace(".", "/") + ".lean") for m in modules]
         srcs += [p for p in __import__("glob").glob(os.path.join(vlib.LEAN, "MpirProofs", "Lemmas", "*.lean"))]
         srcs += [p for p in __import__("glob").glob(os.path.join(vlib.LEAN, "Mpir", "**", "*.lean"), recursive=True)]
